@@ -55,6 +55,7 @@ type job struct {
 	failAt  int
 	handler bool // served through templ.Handler (buffered) into a ResponseWriter that yields on every call
 	mw      bool // served through the one shared CSS middleware (path = the name to render)
+	eh      bool // the handler has a custom error handler (WithErrorHandler)
 }
 
 // one CSS middleware for the whole process, as a server has: requests through it must not see each other
@@ -99,19 +100,20 @@ func failingAfter(text string) templ.Component {
 
 func jobs() map[string]job {
 	return map[string]job{
-		"pageA":       {"pageA", func() templ.Component { return Page("alice", []string{"a1", "a2"}) }, -1, false, false},
-		"pageB":       {"pageB", func() templ.Component { return Page("bob", []string{"b1"}) }, -1, false, false},
-		"bigA":        {"bigA", func() templ.Component { return Big("AAAA") }, -1, false, false},
-		"bigB":        {"bigB", func() templ.Component { return Big("BBBB") }, -1, false, false},
-		"smallA":      {"smallA", func() templ.Component { return Small("a") }, -1, false, false},
-		"smallB":      {"smallB", func() templ.Component { return Small("b") }, -1, false, false},
-		"handlerOK":   {name: "handlerOK", mk: func() templ.Component { return Big("AAAA") }, failAt: -1, handler: true},
-		"handlerFail": {name: "handlerFail", mk: func() templ.Component { return failingAfter(strings.Repeat("BBBB-", 60)) }, failAt: -1, handler: true},
-		"mwA":         {name: "mwA", failAt: -1, mw: true, mk: func() templ.Component { return nil }},
-		"mwB":         {name: "mwB", failAt: -1, mw: true, mk: func() templ.Component { return nil }},
-		"otherA":      {"otherA", func() templ.Component { return Other("from-the-second-file") }, -1, false, false},
-		"spreadA":     {"spreadA", func() templ.Component { return Spread("alice@example.com") }, -1, false, false},
-		"spreadB":     {"spreadB", func() templ.Component { return Spread("bob") }, -1, false, false},
+		"pageA":         {"pageA", func() templ.Component { return Page("alice", []string{"a1", "a2"}) }, -1, false, false},
+		"pageB":         {"pageB", func() templ.Component { return Page("bob", []string{"b1"}) }, -1, false, false},
+		"bigA":          {"bigA", func() templ.Component { return Big("AAAA") }, -1, false, false},
+		"bigB":          {"bigB", func() templ.Component { return Big("BBBB") }, -1, false, false},
+		"smallA":        {"smallA", func() templ.Component { return Small("a") }, -1, false, false},
+		"smallB":        {"smallB", func() templ.Component { return Small("b") }, -1, false, false},
+		"handlerOK":     {name: "handlerOK", mk: func() templ.Component { return Big("AAAA") }, failAt: -1, handler: true},
+		"handlerFail":   {name: "handlerFail", mk: func() templ.Component { return failingAfter(strings.Repeat("BBBB-", 60)) }, failAt: -1, handler: true},
+		"handlerFailEH": {name: "handlerFailEH", mk: func() templ.Component { return failingAfter(strings.Repeat("CCCC-", 60)) }, failAt: -1, handler: true, eh: true},
+		"mwA":           {name: "mwA", failAt: -1, mw: true, mk: func() templ.Component { return nil }},
+		"mwB":           {name: "mwB", failAt: -1, mw: true, mk: func() templ.Component { return nil }},
+		"otherA":        {"otherA", func() templ.Component { return Other("from-the-second-file") }, -1, false, false},
+		"spreadA":       {"spreadA", func() templ.Component { return Spread("alice@example.com") }, -1, false, false},
+		"spreadB":       {"spreadB", func() templ.Component { return Spread("bob") }, -1, false, false},
 		// the same sanitisers with an accepted and a rejected value side by side
 		"kitchenA": {"kitchenA", func() templ.Component {
 			return Kitchen("red", "https://example.com/a", "serif", templ.Attributes{"data-x": "1", "data-y": "alice"})
@@ -140,7 +142,16 @@ func renderOne(j job) outcome {
 	}
 	if j.handler {
 		w := &respWriter{h: http.Header{}}
-		templ.Handler(j.mk(), templ.WithStatus(201)).ServeHTTP(w, httptest.NewRequest("GET", "/", nil))
+		opts := []func(*templ.ComponentHandler){templ.WithStatus(201)}
+		if j.eh {
+			opts = append(opts, templ.WithErrorHandler(func(r *http.Request, err error) http.Handler {
+				return http.HandlerFunc(func(w http.ResponseWriter, r *http.Request) {
+					w.WriteHeader(http.StatusBadGateway)
+					io.WriteString(w, "custom error page")
+				})
+			}))
+		}
+		templ.Handler(j.mk(), opts...).ServeHTTP(w, httptest.NewRequest("GET", "/", nil))
 		return outcome{out: fmt.Sprintf("%d|%s", w.status, w.body.String())}
 	}
 	w := &writer{failAt: j.failAt}
@@ -227,7 +238,7 @@ func devModeReady() bool { return templruntime.VerifDevMode() }
 
 func raceMode(ref map[string]outcome) {
 	all := jobs()
-	names := []string{"pageA", "pageB", "bigA", "bigB", "smallA", "smallB", "bigFail", "pageFail", "spreadA", "spreadB", "kitchenA", "kitchenB", "kitchenB", "kitchenA", "otherA", "smallA", "otherA", "handlerOK", "handlerFail", "mwA", "mwB", "mwA"}
+	names := []string{"pageA", "pageB", "bigA", "bigB", "smallA", "smallB", "bigFail", "pageFail", "spreadA", "spreadB", "kitchenA", "kitchenB", "kitchenB", "kitchenA", "otherA", "smallA", "otherA", "handlerOK", "handlerFail", "mwA", "mwB", "mwA", "handlerFailEH", "handlerOK"}
 	var wg sync.WaitGroup
 	var mu sync.Mutex
 	mismatch := ""
@@ -306,6 +317,7 @@ func main() {
 		{"2 goroutines, page render fails midway next to a page render", [][]string{{"pageFail"}, {"pageB", "smallB"}}},
 		{"2 goroutines rendering spread attributes", [][]string{{"spreadA"}, {"spreadB"}}},
 		{"2 requests through the buffered HTTP handler, one of them failing, slow clients", [][]string{{"handlerOK"}, {"handlerFail", "handlerOK"}}},
+		{"3 requests through the buffered HTTP handler, the first fails into a custom error handler, then two overlap", [][]string{{"handlerFailEH", "handlerOK"}, {"handlerOK"}}},
 		{"3 requests through one shared CSS middleware (registered class, inline class, script template)", [][]string{{"mwA", "mwB"}, {"mwB"}}},
 	}
 	if dev {
